@@ -300,10 +300,21 @@ def patch_classes():
         if self._num_aircraft == 0:
             raise RuntimeError("There are no aircraft in this scene. No calculations can be performed.")
         self._FM = Env.world.solve(self, kwargs)
+        k = Env.world.calls[-1]["k"]
+        N = self._N
+        # per-section results of the (stubbed) solve: fresh symbols tied to the call, so that distributions() can run
+        for nm, width in (("_dF_inv", 3), ("_dF_visc", 3), ("_dM_inv", 3), ("_dM_visc", 3), ("_v_i", 3), ("_alpha", 0), ("_CL", 0), ("_Cm", 0),
+                          ("_CD", 0), ("_gamma", 0), ("_Re", 0), ("_M", 0), ("_redim_full", 0), ("_redim_in_plane", 0), ("_aL0", 0)):
+            if width:
+                arr = np.array([[sym("S!%d%s_%d_%d" % (k, nm, i, j)) for j in range(width)] for i in range(N)], dtype=object)
+            else:
+                arr = np.array([sym("S!%d%s_%d" % (k, nm, i)) for i in range(N)], dtype=object)
+            setattr(self, nm, facade.wrap(arr))
         fn = kwargs.get("filename", None)
         if fn is not None:
             Env.world.dumped.append((fn, self._FM))
         self._solved = True
+        self._solved_call = Env.world.calls[-1]
         return self._FM
 
     def get_aerodynamic_state(self, v_wind=[0.0, 0.0, 0.0]):
